@@ -258,7 +258,8 @@ def scene_of(c, complex_fields=None, only=None, saf=1.0):
     dt = _dt(c)
     time = (c["steps"] + 0.01) * dt if dt else 1e-15
     sc = Y.build(c["shape"], c["faces"], widths=c["widths"], pml_thickness=c["pml_thickness"], time=time,
-                 gradient=c["gradient"], extra_fn=lambda vol: make_objects(c, vol, only, saf), complex_fields=complex_fields)
+                 gradient=c["gradient"], extra_fn=lambda vol: make_objects(c, vol, only, saf), complex_fields=complex_fields,
+                 bloch_vector=tuple(c.get("bloch_vector") or (0.0, 0.0, 0.0)))
     return sc
 
 
